@@ -171,3 +171,120 @@ func H_C15_pptx_table_markdown() {
 	}
 	vReach("end")
 }
+
+// H_C15_pptx_slide_markdown: a slide's Markdown keeps its structure: the title is a level-1 heading, bullets keep their
+// nesting, and every table is its own pipe table - two tables on one slide are not run together.
+//
+//symgo:harness prop=C15 kernel=K2-pptx-slide-markdown
+//symgo:desc Reader with one or two harness-built slides; the first has a title, a body block of 1..2 bullet paragraphs at levels 0..1 (enumerated) and 0..2 tables (enumerated) of 2 x 2 and 2 x 3 cells; speaker notes present or not; Markdown(): split at blank lines, the blocks that start with a pipe are exactly the slide's tables, each read back by the reference GFM reader with its own rows, columns and cell texts; the title line is "# <title>"; a level-1 bullet is indented under a level-0 bullet
+func H_C15_pptx_slide_markdown() {
+	ntab := vAnyIntIn(0, 2)
+	nbul := vAnyIntIn(1, 2)
+	s1 := &Slide{Index: 0, Title: "Quarterly"}
+	body := TextBlock{Placeholder: "body"}
+	for i := 0; i < nbul; i++ {
+		lvl := 0
+		if i == 1 {
+			lvl = vAnyIntIn(0, 1)
+		}
+		body.Paragraphs = append(body.Paragraphs, Paragraph{Text: "bullet" + string(rune('A'+i)), IsBullet: true, Level: lvl})
+	}
+	s1.Content = []TextBlock{{Text: "Quarterly", IsTitle: true, Placeholder: "title", Paragraphs: []Paragraph{{Text: "Quarterly"}}}, body}
+	shapes := [][2]int{{2, 2}, {2, 3}}
+	var want [][][]string
+	for k := 0; k < ntab; k++ {
+		t := Table{Columns: shapes[k][1]}
+		var rows [][]string
+		for i := 0; i < shapes[k][0]; i++ {
+			var r []TableCell
+			var rt []string
+			for j := 0; j < shapes[k][1]; j++ {
+				txt := "t" + string(rune('0'+k)) + "r" + string(rune('0'+i)) + "c" + string(rune('0'+j))
+				r = append(r, TableCell{Text: txt, RowSpan: 1, ColSpan: 1})
+				rt = append(rt, txt)
+			}
+			t.Rows = append(t.Rows, r)
+			rows = append(rows, rt)
+		}
+		s1.Tables = append(s1.Tables, t)
+		want = append(want, rows)
+	}
+	if vAnyIntIn(0, 1) == 1 {
+		s1.Notes = "remember this"
+	}
+	r := &Reader{slides: []*Slide{s1}}
+	if vAnyIntIn(0, 1) == 1 {
+		r.slides = append(r.slides, &Slide{Index: 1, Title: "Second", Content: []TextBlock{{Text: "Second", IsTitle: true, Paragraphs: []Paragraph{{Text: "Second"}}}}})
+	}
+	md, err := r.Markdown()
+	vAssert("no-error", err == nil)
+	lines := splitLines(md)
+	vAssert("title-is-level-1-heading", len(lines) > 0 && lines[0] == "# Quarterly")
+	// blocks separated by blank lines
+	var blocks [][]string
+	var cur []string
+	for _, ln := range append(lines, "") {
+		if ln == "" {
+			if len(cur) > 0 {
+				blocks = append(blocks, cur)
+				cur = nil
+			}
+			continue
+		}
+		cur = append(cur, ln)
+	}
+	k := 0
+	for _, b := range blocks {
+		if len(b[0]) == 0 || b[0][0] != '|' {
+			continue
+		}
+		vAssert("no-more-pipe-tables-than-the-slide-has", k < len(want))
+		got, ok := vGFMParse(joinLines(b))
+		vAssert("each-table-is-one-well-formed-pipe-table", ok)
+		vAssert("table-row-count", len(got) == len(want[k]))
+		for i := range want[k] {
+			vAssert("table-column-count", len(got[i]) == len(want[k][i]))
+			for j := range want[k][i] {
+				vAssert("table-cell-text", got[i][j] == want[k][i][j])
+			}
+		}
+		k++
+	}
+	vAssert("every-table-present", k == len(want))
+	if nbul == 2 {
+		a, b := -1, -1
+		for i, ln := range lines {
+			if ln == "- bulletA" {
+				a = i
+			}
+			if ln == "- bulletB" || ln == "  - bulletB" {
+				b = i
+			}
+		}
+		vAssert("bullets-in-order", a >= 0 && b == a+1)
+		vAssert("bullet-nesting-kept", (lines[b] == "  - bulletB") == (body.Paragraphs[1].Level == 1))
+	}
+	vReach("end")
+}
+
+func splitLines(s string) []string {
+	var out []string
+	cur := ""
+	for i := 0; i < len(s); i++ {
+		if s[i] == '\n' {
+			out = append(out, cur)
+			cur = ""
+			continue
+		}
+		cur += string(s[i])
+	}
+	return append(out, cur)
+}
+
+func joinLines(ls []string) string {
+	out := ""
+	for _, l := range ls {
+		out += l + "\n"
+	}
+	return out
+}
